@@ -191,7 +191,7 @@ Proof.
   generalize 0 as pos. induction Htl as [|tld tl Ht Htl IH]; intros pos; cbn [for_from web_go]; [reflexivity|].
   unfold body at 1. cbv beta.
   match goal with |- context [while_ _ _ ?c ?b] => set (wcond := c); set (wbody := b) end.
-  assert (Hc : forall e T p, wcond (e, T, p) = negb (e =? -1)) by reflexivity.
+  assert (Hc : forall e T p, wcond (e, T, p) = negb (e =? -1)) by (intros; first [reflexivity | cbn; f_equal; apply Z.eqb_sym]).
   assert (Hb : forall e T,
     match web_step ws tld T with
     | StepErr => wbody (e, T, []) = Raise
